@@ -144,7 +144,7 @@ func vsrvC08Script(s *vsrvSession, rng *rand.Rand, d *vsrvC08Desc, directed int)
 	if d.MaxFrame != 0 {
 		ss = append(ss, h2ref.Setting{ID: h2ref.SettingMaxFrameSize, Val: uint32(d.MaxFrame)})
 	}
-	if rng.IntN(2) == 0 {
+	if rng.IntN(2) == 0 && directed != 2 {
 		ss = append(ss, h2ref.Setting{ID: h2ref.SettingEnablePush, Val: 0})
 	}
 	rng.Shuffle(len(ss), func(i, j int) { ss[i], ss[j] = ss[j], ss[i] })
@@ -189,6 +189,23 @@ func vsrvC08Script(s *vsrvSession, rng *rand.Rand, d *vsrvC08Desc, directed int)
 		}
 		opened++
 		ops, total := vsrvC08Plan(rng)
+		if directed == 2 {
+			// server push: the first request's handler pushes /pushed/N (N = 1..) and stays; the
+			// promised streams 2, 4, .. carry large bodies and are flow-controlled like any other
+			if opened == 1 {
+				np := 1 + rng.IntN(2)
+				ops, total = nil, 0
+				for k := 1; k <= np; k++ {
+					ops = append(ops, vsrvOp{Kind: 'U', N: k})
+					pt := vsrvPick(rng, 70000, 100000, 300000)
+					pid := uint32(2 * k)
+					planTotal[pid] = pt
+					s.setPlan(pid, []vsrvOp{{Kind: 'w', N: pt}})
+					d.Bodies = append(d.Bodies, pt)
+				}
+				ops = append(ops, vsrvOp{Kind: 'p'})
+			}
+		}
 		if directed == 1 {
 			// RFC 7540 tree: the first stream is an open parent with nothing to send, the others
 			// depend on it and have large bodies (their writes are "out of order" for the scheduler)
@@ -443,6 +460,12 @@ func TestVerif_C08(t *testing.T) {
 	r.CasesParallel("session-rfc7540", n/5, 0, func(c *verifrt.Case) {
 		vsrvC08Session(r, c, "rfc7540", 0)
 	})
+	// server push: promised streams obey the client's windows too, also while the connection is
+	// being shut down gracefully
+	r.CasesParallel("session-push", r.N(60, 400), 0, func(c *verifrt.Case) {
+		vsrvC08Session(r, c, vsrvPick(c.Rng, "", "rr", "random"), 2)
+	})
+	r.Require("server_push_promises", 30)
 	// the same scheduler throttling out-of-order writes (its per-write budget grows by 1 KiB per
 	// write and crosses the frame size): dependants of an open, silent parent with large bodies
 	r.CasesParallel("session-rfc7540-throttle", r.N(40, 300), 0, func(c *verifrt.Case) {
